@@ -1,5 +1,28 @@
 prop("C12", pkg="c12",
-     rule="TODO",
+     rule="rapid draws a message schema (1-4 messages forming a DAG, 0-7 fields each: bool/int/int32/int64/uint/uint32/uint64/float32/float64/string/[]byte, "
+          "repeated, map<K,V> with integral/bool/string keys, nested message by value or pointer incl. single-field 'inlined' shapes; untagged or fully "
+          "tagged with numbers weighted on 15/16, 2047/2048, 65535 and zigzag/fixed options) which is materialised both as a reflect.StructOf type with "
+          "protobuf struct tags and as a proto3 FileDescriptorProto (packed=false, map_entry) checked field by field against proto.TypeOf; 2-8 (thorough: 6-24) value recipes per "
+          "schema. Each value gives one encode evaluation (reference decodes seg.Marshal(v) or Marshal(&v): no error, no unknown fields, equal fields, floats by "
+          "bits, nil==empty) and 2-4 decode evaluations (seg.Unmarshal of the reference's deterministic encoding and of 1-3 re-encodings built with protowire from "
+          "compositions of exactly: field permutation keeping same-number order, non-minimal varints of 2-10 bytes for tags/values/lengths, an earlier overridden "
+          "occurrence of a singular scalar field, a singular embedded message split into 2-3 occurrences; a re-encoding is kept only if the reference decodes it to v). "
+          "Non-trivial = at least one non-default field and, for a transformed encoding, at least one transformation changed the bytes; distinct = FNV-64 of "
+          "(direction, schema JSON, value JSON, by-pointer flag or wire bytes). While listed as known, the generator avoids by construction: field numbers > 65535, "
+          "zigzag/fixed on repeated fields, multi-byte bool varints, decode of values with a repeated field of more than 10 elements (counts under excluded_known).",
      quick=dict(shards=8, scale=1, timeout=600),
-     thorough=dict(shards=16, scale=12, timeout=3000),
-     technique="TODO", level_text="TODO", level_note="TODO", assumptions=[])
+     thorough=dict(shards=16, scale=2, timeout=3000),
+     technique="rapid property-based differential testing against google.golang.org/protobuf v1.26.0 (protodesc + dynamicpb + protowire surgery) on generated "
+               "struct types and values, both directions",
+     level_text="Exploration by differential testing: about 0.7 M oracle evaluations per quick run over 40 000 generated message types compare the package with "
+                "protobuf-go in both directions; a disagreement in any generated (type, value, legal re-encoding) is reported with a replayable case. Held = no "
+                "disagreement outside the classes listed in known_findings.json (8 genuine defects found by this check are listed there and excluded narrowly).",
+     level_note="Trusted base: protobuf-go v1.26.0 as the definition of the wire format and of 'decodes to the same values', plus harness/pschema (schema -> Go type / "
+                "descriptor / value conversions, self-checked by pschema tests). Not covered: recursive message types, pointers to scalars, [N]byte, custom "
+                "Message implementers, packed encodings, groups, sfixed32/64; repeated fields above 10 elements in the decode direction and field numbers above "
+                "65535 only through the known-finding witnesses until those defects are repaired.",
+     assumptions=["protobuf-go v1.26.0 decodes/encodes the standard wire format correctly (reference)",
+                  "a nil *struct field and a pointer to an all-zero struct are treated as equal (nil == empty); presence of empty sub-messages is C03's subject",
+                  "float32 NaN payloads are generated with the quiet bit set (the reference stores float32 as float64, which quiets signalling NaNs)",
+                  "strings are valid UTF-8 (proto3 string fields; the reference rejects other bytes)",
+                  "proto.TypeOf reports uint32/uint64 for fixed32/fixed64-tagged fields (it cannot express fixed); the cross-check tolerates exactly this"])
